@@ -252,6 +252,19 @@ class _StmtCanon(ast.NodeTransformer):
             o, name, v = st.value.args
             tgt = ast.copy_location(ast.Attribute(value=self.visit(o), attr=name.value, ctx=ast.Store()), st)
             return [ast.copy_location(ast.Assign(targets=[tgt], value=self.visit(v)), st)]
+        # `self.a, self.b = x, None`: a parallel assignment of displays whose right-hand sides are names / constants that none of the
+        # targets rebinds is the sequence of the single assignments
+        if isinstance(st, ast.Assign) and self.depth and len(st.targets) == 1 and isinstance(st.targets[0], (ast.Tuple, ast.List)) \
+                and isinstance(st.value, (ast.Tuple, ast.List)) and len(st.targets[0].elts) == len(st.value.elts) >= 2 \
+                and all(isinstance(v, (ast.Name, ast.Constant)) for v in st.value.elts) \
+                and all(isinstance(t, (ast.Name, ast.Attribute)) and not isinstance(t, ast.Starred) for t in st.targets[0].elts) \
+                and any(isinstance(t, ast.Attribute) for t in st.targets[0].elts):
+            tnames = {t.id for t in st.targets[0].elts if isinstance(t, ast.Name)}
+            if not any(isinstance(v, ast.Name) and v.id in tnames for v in st.value.elts):
+                out = []
+                for t, v in zip(st.targets[0].elts, st.value.elts):
+                    out += self._one(ast.copy_location(ast.Assign(targets=[t], value=v), st), before + out)
+                return out
         # conditional expression as the whole right-hand side / return value
         if isinstance(st, (ast.Assign, ast.Return, ast.AnnAssign)) and isinstance(getattr(st, "value", None), ast.IfExp) and self.depth:
             ife = st.value
